@@ -147,6 +147,11 @@ def roundtrip_cases(draw, tier="quick"):
     spec["class"] = draw(st.sampled_from(hgen.CLASSES_BY_DIM[d]))
     if d > 1:
         spec["missed"] = [0 if isinstance(spec["missed"][0], float) and math.isnan(spec["missed"][0]) else spec["missed"][0]]
+    if spec["dtype"] == "int64" and draw(st.integers(0, 3)) == 0:
+        # counts that no float64 can carry: the document holds integers and they must come back as they are
+        big = st.sampled_from([2 ** 53 + 1, 2 ** 53 + 3, 2 ** 62 + 1, 2 ** 63 - 1, 7, 0])
+        spec["freq"] = hgen.nested(draw, hgen.shape_of(spec), big)
+        spec["err2"] = hgen.nested(draw, hgen.shape_of(spec), big) if draw(st.booleans()) else None
     return {"via": via, "spec": spec}
 
 
